@@ -437,3 +437,41 @@ Proof.
   - replace ((at_ (m_music s) (id * 4 + ch) / 128 * 128 + (65 + ch)) mod 128) with (65 + ch) by lia.
     assert ((63 <? 65 + ch) = true) as -> by lia. reflexivity.
 Qed.
+
+(* ================= a Map without a Gfx attached (has_gfx = false) ================= *)
+(* only rows 0-31 exist then ("Map must have a Gfx if y > 31"); calls that stay inside them
+   behave exactly as before, cell accesses below are refused *)
+Definition no_gfx_ok (o : op) : bool :=
+  match o with
+  | MapGet x y => y <=? 31
+  | MapSet x y v => y <=? 31
+  | MapGetRect x y w h => y + h <=? 32
+  | MapSetRect x y rows => y + zlen rows <=? 32
+  | _ => true
+  end.
+
+Lemma c17_refines_nogfx s o : wf_mem s -> in_contract o = true -> no_gfx_ok o = true ->
+  step_model false s o = Ok (spec_step s o).
+Proof.
+  intros W C G. wf_destruct W.
+  destruct o; try exact (proj1 (c17_refines s _ W C)); cbn [no_gfx_ok] in G.
+  - (* MapGet *) unfold in_contract, inr in C. unfold step_model, spec_step. cbv beta iota zeta.
+    rewrite map_get_cell_gen by (try assumption; try lia; right; lia). reflexivity.
+  - (* MapSet *) unfold in_contract, inr in C.
+    destruct (map_set_cell_gen (m_map s) (m_gfx s) false x y v) as (E & _); try assumption; try lia.
+    unfold step_model, spec_step. cbv beta iota zeta. rewrite E.
+    destruct (set_cell (m_map s, m_gfx s) x y v) as [m' g']. reflexivity.
+  - (* MapGetRect *) unfold in_contract, inr in C. unfold step_model, spec_step. cbv beta iota zeta.
+    rewrite map_get_rect_gen by (try assumption; try lia; right; lia). reflexivity.
+  - (* MapSetRect *) unfold in_contract in C. apply andb_true_iff in C. destruct C as [C HR].
+    destruct (map_set_rect_gen (m_map s) (m_gfx s) false x y rows) as (E & _); try assumption; try lia.
+    unfold step_model, spec_step. cbv beta iota zeta. rewrite E.
+    destruct (spec_set_rect (m_map s, m_gfx s) x y rows) as [m' g']. reflexivity.
+Qed.
+
+Lemma c17_nogfx_refuses s x y v : 32 <= y ->
+  step_model false s (MapGet x y) = Err AssertionError /\ step_model false s (MapSet x y v) = Err AssertionError.
+Proof.
+  intros Hy. unfold step_model. cbv beta iota zeta.
+  rewrite map_get_cell_nogfx, map_set_cell_nogfx by exact Hy. split; reflexivity.
+Qed.
